@@ -11,12 +11,19 @@
 //! same thread), the process environment (TZ), the parameters of the call
 //! (Display format specs, sink kinds, entry points) and who else holds the
 //! values (ownership.shared_values, handed_out.sequences).
+//! Round 10 adds the construction routes of the resource sets a provisioning
+//! message carries (resources.routes.lists / .operations: every public way to
+//! build a set, over a number line with both ends of the number space, against
+//! the value of the plainest route; prov.resource_routes: those values inside
+//! messages, the parsed message also compared with the message built from the
+//! expected set).
 //! Oracles: (i) parse(write(m)) == m, (ii) written bytes are well-formed XML
 //! per the strict checker in this file (and quick-xml's raw reader as a
 //! second opinion), (iii) parsers return without panicking.
 
 use std::collections::{BTreeMap, HashSet};
 use std::io;
+use std::net::{Ipv4Addr, Ipv6Addr};
 use std::str::FromStr;
 use std::sync::Mutex;
 use rayon::prelude::*;
@@ -28,13 +35,17 @@ use rpki::ca::publication::Base64;
 use rpki::ca::sigmsg::SignedMessage;
 use rpki::crypto::KeyIdentifier;
 use rpki::repository::cert::Cert;
-use rpki::repository::resources::{AsBlocks, Ipv4Blocks, Ipv6Blocks, ResourceSet};
+use rpki::repository::cert::Overclaim;
+use rpki::repository::resources::{Addr, AddressRange, AsBlock, AsBlocks, AsBlocksBuilder, AsResources, AsResourcesBuilder, Asn, IpBlock, IpBlocks, IpBlocksBuilder, IpResources, IpResourcesBuilder,
+    Ipv4Block, Ipv4Blocks, Ipv6Block, Ipv6Blocks, ResourceSet};
 use rpki::repository::x509::Time;
 use rpki::rrdp::Hash;
 use rpki::uri;
 use rpki_verif::engine::enumerate::par_chunks;
 use rpki_verif::engine::report::repo_dir;
+use bcder::Mode;
 use bytes::Bytes;
+use rpki_verif::engine::der;
 use rpki_verif::{guard, hex, trunc, Ctx, Space};
 
 //============ Independent strict well-formedness checker ====================
@@ -1452,6 +1463,503 @@ fn space_provisioning(ctx: &Ctx, fx: &Fx) {
     });
     sp.set("class_alphabet", serde_json::json!(calpha.len()));
     col.finish(true, "all sequences of <= 2 classes x <= 2 certificates");
+}
+
+//============ Resource sets through every construction route ================
+//
+// The resource sets a provisioning message carries (entitlements, request
+// limits) are values the caller builds before the message exists, and the
+// library offers many ways to build them. The message spaces above take
+// their sets from FromStr of canonical text only. Here every set is built
+// through every public route -- text in any order and spelling, FromIterator
+// over blocks in either block form, the builders with push / extend in every
+// split, the *ResourcesBuilder wrappers, union / intersection / difference
+// results, all() / empty(), serde, the RFC 3779 extension decoders -- over a
+// number line that includes both ends of the number space.
+//
+// Model: the line of each family (AS numbers, IPv4, IPv6) is cut into 8
+// atoms: the points 0, 1, M, M+1, TOP-1, TOP and the two stretches between
+// them; a set is a bit mask over the atoms, union / intersection / difference
+// are |, &, &!. The *expected* library value of a mask is built through the
+// plainest route there is: FromStr of the sorted, disjoint, non-touching
+// ranges of the mask (and its blocks are compared with the model's).
+//
+// Oracles: the value a route yields equals the expected value (the first
+// place where "a message built from protocol-valid values" goes wrong if a
+// route mis-builds the set), and a message carrying the value a route yielded
+// is written, parsed back, and compared with itself *and* with the message
+// built from the expected value -- a wrong set that happens to round-trip
+// faithfully is not what the caller asked to send.
+
+const RR_CELL_ATOM: [u32; 6] = [0, 1, 3, 4, 6, 7];
+
+#[derive(Clone, Copy, PartialEq, Eq)]
+enum RrForm { Canonical, Range }
+
+fn rr_cells(mid: u128, top: u128) -> [u128; 6] { [0, 1, mid, mid + 1, top - 1, top] }
+
+fn rr_atom(mid: u128, top: u128, a: u32) -> (u128, u128) {
+    match a { 0 => (0, 0), 1 => (1, 1), 2 => (2, mid - 1), 3 => (mid, mid), 4 => (mid + 1, mid + 1), 5 => (mid + 2, top - 2), 6 => (top - 1, top - 1), _ => (top, top) }
+}
+
+/// the 21 blocks [cell i ..= cell j]
+fn rr_blocks() -> Vec<(usize, usize)> { let mut v = Vec::new(); for i in 0..6 { for j in i..6 { v.push((i, j)) } } v }
+
+fn rr_block_mask(i: usize, j: usize) -> u8 { let mut m = 0u8; for a in RR_CELL_ATOM[i]..=RR_CELL_ATOM[j] { m |= 1 << a } m }
+
+/// maximal runs of atoms, as number intervals: sorted, disjoint, not touching
+fn rr_intervals(mid: u128, top: u128, mask: u8) -> Vec<(u128, u128)> {
+    let mut out: Vec<(u128, u128)> = Vec::new();
+    let mut open = false;
+    for a in 0..8u32 {
+        if mask & (1 << a) != 0 {
+            let (lo, hi) = rr_atom(mid, top, a);
+            if open { out.last_mut().unwrap().1 = hi } else { out.push((lo, hi)); open = true }
+        } else { open = false }
+    }
+    out
+}
+
+#[derive(Clone, Debug, PartialEq)]
+enum RrVal { As(AsBlocks), V4(Ipv4Blocks), V6(Ipv6Blocks) }
+
+type RrEmit<'a, S> = &'a mut dyn FnMut(usize, usize, Result<S, String>);
+
+trait RrFam: Sync + Send + 'static {
+    type Set: Clone + PartialEq + std::fmt::Debug + std::fmt::Display + Send + Sync;
+    const NAME: &'static str;
+    const MID: u128;
+    const TOP: u128;
+    const LIST_ROUTES: &'static [&'static str];
+    /// one block as text; compact: a single number / a prefix where there is one
+    fn text(lo: u128, hi: u128, compact: bool) -> String;
+    /// the plainest route: FromStr of sorted, disjoint, non-touching ranges
+    fn plain(iv: &[(u128, u128)]) -> (String, Result<Self::Set, String>);
+    /// the blocks of a set as model intervals
+    fn bounds(s: &Self::Set) -> Vec<(u128, u128)>;
+    /// every route from a block list (in the given order) to a set: emit(route, k, result)
+    fn list_routes(l: &[(u128, u128)], emit: RrEmit<Self::Set>);
+    /// routes without arguments: (name, mask, value)
+    fn nullary() -> Vec<(&'static str, u8, Self::Set)>;
+    /// the five operations of RR_OPS on two sets
+    fn ops(a: &Self::Set, b: &Self::Set, emit: &mut dyn FnMut(usize, Self::Set));
+    fn of_set(s: &ResourceSet) -> Self::Set;
+    fn val(s: &Self::Set) -> RrVal;
+}
+
+const RR_OPS: [&str; 7] = ["a.union(b)", "a.intersection(b)", "a.intersection_assign(b)", "a.difference(b)", "b.verify_issued(blocks(a), Overclaim::Trim)",
+    "ResourceSet::union", "ResourceSet::intersection"];
+fn rr_op_model(op: usize, a: u8, b: u8) -> u8 { match op { 0 | 5 => a | b, 3 => a & !b, _ => a & b } }
+
+fn rr_join<F: RrFam>(l: &[(u128, u128)], compact: bool) -> String { l.iter().map(|&(a, b)| F::text(a, b, compact)).collect::<Vec<_>>().join(", ") }
+fn rr_err<E: std::fmt::Display>(e: E) -> String { e.to_string() }
+
+//--- AS numbers
+
+struct RrAs;
+
+fn rr_as_block(lo: u128, hi: u128, f: RrForm) -> AsBlock {
+    if lo == hi && f == RrForm::Canonical { AsBlock::from(Asn::from(lo as u32)) } else { AsBlock::from((Asn::from(lo as u32), Asn::from(hi as u32))) }
+}
+
+impl RrFam for RrAs {
+    type Set = AsBlocks;
+    const NAME: &'static str = "as";
+    const MID: u128 = 65536;
+    const TOP: u128 = u32::MAX as u128;
+    const LIST_ROUTES: &'static [&'static str] = &[
+        "AsBlocks::from_str(ranges)", "AsBlocks::from_str(single numbers where possible)", "AsBlocks::from_iter(Id / Range blocks)", "AsBlocks::from_iter(Range blocks only)",
+        "AsBlocksBuilder: push every block", "AsBlocksBuilder: extend(all blocks)", "AsBlocksBuilder: extend(all blocks, Range form)", "AsBlocksBuilder: push the first k, extend(the rest)",
+        "AsBlocksBuilder: extend(the first k), push the rest", "AsBlocksBuilder: extend one block at a time", "AsResourcesBuilder::blocks(extend).finalize().to_blocks()",
+        "union of one-block sets, folded in list order", "serde: AsBlocks from a JSON string", "ResourceSet::from_strs", "serde: ResourceSet from a JSON object",
+        "serde: RequestResourceLimit from a JSON object", "DER: AsResources::take_from(ASIdentifiers).to_blocks()"];
+    fn text(lo: u128, hi: u128, compact: bool) -> String { if compact && lo == hi { format!("AS{lo}") } else { format!("AS{lo}-AS{hi}") } }
+    fn plain(iv: &[(u128, u128)]) -> (String, Result<AsBlocks, String>) { let t = rr_join::<Self>(iv, true); let r = AsBlocks::from_str(&t).map_err(rr_err); (t, r) }
+    fn bounds(s: &AsBlocks) -> Vec<(u128, u128)> { s.iter().map(|b| (b.min().into_u32() as u128, b.max().into_u32() as u128)).collect() }
+    fn list_routes(l: &[(u128, u128)], emit: RrEmit<AsBlocks>) {
+        let n = l.len();
+        let canon: Vec<AsBlock> = l.iter().map(|&(a, b)| rr_as_block(a, b, RrForm::Canonical)).collect();
+        let ranges: Vec<AsBlock> = l.iter().map(|&(a, b)| rr_as_block(a, b, RrForm::Range)).collect();
+        let (t0, t1) = (rr_join::<Self>(l, false), rr_join::<Self>(l, true));
+        emit(0, 0, AsBlocks::from_str(&t0).map_err(rr_err));
+        emit(1, 0, AsBlocks::from_str(&t1).map_err(rr_err));
+        emit(2, 0, Ok(canon.iter().copied().collect()));
+        emit(3, 0, Ok(ranges.iter().copied().collect()));
+        let mut b = AsBlocksBuilder::new(); for x in &canon { b.push(*x) } emit(4, 0, Ok(b.finalize()));
+        let mut b = AsBlocksBuilder::new(); b.extend(canon.iter().copied()); emit(5, 0, Ok(b.finalize()));
+        let mut b = AsBlocksBuilder::default(); b.extend(ranges.iter().copied()); emit(6, 0, Ok(b.finalize()));
+        for k in 1..n {
+            let mut b = AsBlocksBuilder::new(); for x in &canon[..k] { b.push(*x) } b.extend(canon[k..].iter().copied()); emit(7, k, Ok(b.finalize()));
+            let mut b = AsBlocksBuilder::new(); b.extend(canon[..k].iter().copied()); for x in &canon[k..] { b.push(*x) } emit(8, k, Ok(b.finalize()));
+        }
+        if n >= 2 { let mut b = AsBlocksBuilder::new(); for x in &canon { b.extend([*x]) } emit(9, 0, Ok(b.finalize())) }
+        let mut rb = AsResourcesBuilder::new(); rb.blocks(|b| b.extend(canon.iter().copied())); emit(10, 0, rb.finalize().to_blocks().map_err(rr_err));
+        let mut u = AsBlocks::empty(); for x in &canon { u = u.union(&AsBlocks::from_iter([*x])) } emit(11, 0, Ok(u));
+        emit(12, 0, serde_json::from_value::<AsBlocks>(serde_json::json!(t0)).map_err(rr_err));
+        emit(13, 0, ResourceSet::from_strs(&t0, "", "").map(|s| s.asn().clone()).map_err(rr_err));
+        emit(14, 0, serde_json::from_value::<ResourceSet>(serde_json::json!({"asn": t1, "ipv4": "", "ipv6": ""})).map(|s| s.asn().clone()).map_err(rr_err));
+        emit(15, 0, serde_json::from_value::<prov::RequestResourceLimit>(serde_json::json!({"asn": t0})).map_err(rr_err).and_then(|l| l.asn().cloned().ok_or("asn() is None".to_string())));
+        if n >= 1 {
+            let items: Vec<der::AsItem> = l.iter().map(|&(a, b)| if a == b { der::AsItem::Id(a) } else { der::AsItem::Range(a, b) }).collect();
+            emit(16, 0, Mode::Der.decode(der::as_identifiers(Some(&items)).as_slice(), AsResources::take_from).map_err(rr_err).and_then(|r| r.to_blocks().map_err(rr_err)));
+        }
+    }
+    fn nullary() -> Vec<(&'static str, u8, AsBlocks)> {
+        vec![("AsBlocks::all()", 0xff, AsBlocks::all()), ("AsBlocks::empty()", 0, AsBlocks::empty()), ("AsBlocks::default()", 0, AsBlocks::default()),
+            ("ResourceSet::all().asn()", 0xff, ResourceSet::all().asn().clone()), ("ResourceSet::empty().asn()", 0, ResourceSet::empty().asn().clone()),
+            ("AsBlocks::from_iter([AsBlock::all()])", 0xff, AsBlocks::from_iter([AsBlock::all()])),
+            ("AsBlocks::from_resources(AsResources::missing())", 0, AsBlocks::from_resources(AsResources::missing()).expect("missing resources are no blocks"))]
+    }
+    fn ops(a: &AsBlocks, b: &AsBlocks, emit: &mut dyn FnMut(usize, AsBlocks)) {
+        emit(0, a.union(b));
+        emit(1, a.intersection(b));
+        let mut x = a.clone(); x.intersection_assign(b); emit(2, x);
+        emit(3, a.difference(b));
+        if let Ok(t) = b.verify_issued(&AsResources::blocks(a.clone()), Overclaim::Trim) { emit(4, t) }
+    }
+    fn of_set(s: &ResourceSet) -> AsBlocks { s.asn().clone() }
+    fn val(s: &AsBlocks) -> RrVal { RrVal::As(s.clone()) }
+}
+
+//--- IP addresses
+
+/// model numbers of the IPv4 line are 32-bit; the library keeps them in the upper 32 bits of its 128-bit address
+fn rr_ip_bits(v4: bool, x: u128, upper_end: bool) -> u128 { if v4 { (x << 96) | if upper_end { (1u128 << 96) - 1 } else { 0 } } else { x } }
+fn rr_ip_num(v4: bool, x: u128) -> String { if v4 { Ipv4Addr::from(x as u32).to_string() } else { Ipv6Addr::from(x).to_string() } }
+/// Some(prefix length) if [lo, hi] is exactly one prefix of a `width`-bit family
+fn rr_prefix_len(lo: u128, hi: u128, width: u32) -> Option<u32> {
+    let x = lo ^ hi;
+    if x & x.wrapping_add(1) == 0 && lo & x == 0 && hi & x == x { Some(width - x.count_ones()) } else { None }
+}
+fn rr_ip_text(v4: bool, lo: u128, hi: u128, compact: bool) -> String {
+    if compact && lo == hi { return rr_ip_num(v4, lo) }
+    if compact { if let Some(len) = rr_prefix_len(lo, hi, if v4 { 32 } else { 128 }) { return format!("{}/{len}", rr_ip_num(v4, lo)) } }
+    format!("{}-{}", rr_ip_num(v4, lo), rr_ip_num(v4, hi))
+}
+fn rr_ip_block(v4: bool, lo: u128, hi: u128, f: RrForm) -> IpBlock {
+    let (min, max) = (Addr::from_bits(rr_ip_bits(v4, lo, false)), Addr::from_bits(rr_ip_bits(v4, hi, true)));
+    match f { RrForm::Canonical => IpBlock::from((min, max)), RrForm::Range => IpBlock::Range(AddressRange::new(min, max)) }
+}
+
+macro_rules! rr_ip_family {
+    ($fam:ident, $set:ident, $block:ident, $v4:expr, $name:expr, $alias:expr, $mid:expr, $top:expr, $afi:expr, $width:expr, $getter:ident, $all:expr) => {
+        struct $fam;
+        impl RrFam for $fam {
+            type Set = $set;
+            const NAME: &'static str = $name;
+            const MID: u128 = $mid;
+            const TOP: u128 = $top;
+            const LIST_ROUTES: &'static [&'static str] = &[
+                concat!(stringify!($set), "::from_str(ranges)"), concat!(stringify!($set), "::from_str(single addresses and prefixes where possible)"),
+                concat!("IpBlocks::from_str(ranges) into ", stringify!($set)), "IpBlocks::from_iter(Prefix / Range blocks)", "IpBlocks::from_iter(Range blocks only)",
+                concat!(stringify!($set), "::from_iter(", stringify!($block), "::from_str of every block)"),
+                "IpBlocksBuilder: push every block", "IpBlocksBuilder: extend(all blocks)", "IpBlocksBuilder: extend(all blocks, Range form)", "IpBlocksBuilder: push the first k, extend(the rest)",
+                "IpBlocksBuilder: extend(the first k), push the rest", "IpBlocksBuilder: extend one block at a time", "IpResourcesBuilder::blocks(extend).finalize().to_blocks()",
+                "union of one-block sets, folded in list order", concat!("serde: ", stringify!($set), " from a JSON string"), "ResourceSet::from_strs",
+                "serde: ResourceSet from a JSON object (alias member name)", "serde: RequestResourceLimit from a JSON object (alias member name)",
+                "DER: IpResources::take_families_from(IPAddrBlocks).to_blocks()"];
+            fn text(lo: u128, hi: u128, compact: bool) -> String { rr_ip_text($v4, lo, hi, compact) }
+            fn plain(iv: &[(u128, u128)]) -> (String, Result<$set, String>) { let t = rr_join::<Self>(iv, false); let r = $set::from_str(&t).map_err(rr_err); (t, r) }
+            fn bounds(s: &$set) -> Vec<(u128, u128)> { s.iter().map(|b| (b.min().to_bits(), b.max().to_bits())).collect() }
+            fn list_routes(l: &[(u128, u128)], emit: RrEmit<$set>) {
+                let n = l.len();
+                let canon: Vec<IpBlock> = l.iter().map(|&(a, b)| rr_ip_block($v4, a, b, RrForm::Canonical)).collect();
+                let ranges: Vec<IpBlock> = l.iter().map(|&(a, b)| rr_ip_block($v4, a, b, RrForm::Range)).collect();
+                let (t0, t1) = (rr_join::<Self>(l, false), rr_join::<Self>(l, true));
+                emit(0, 0, $set::from_str(&t0).map_err(rr_err));
+                emit(1, 0, $set::from_str(&t1).map_err(rr_err));
+                // the untyped parser tells the family by the first '.' / ':' -- an empty list has neither, any family will do
+                emit(2, 0, IpBlocks::from_str(&t0).map($set::from).map_err(rr_err));
+                emit(3, 0, Ok(canon.iter().copied().collect::<IpBlocks>().into()));
+                emit(4, 0, Ok(ranges.iter().copied().collect::<IpBlocks>().into()));
+                emit(5, 0, l.iter().map(|&(a, b)| $block::from_str(&Self::text(a, b, false))).collect::<Result<Vec<_>, _>>().map(|v| v.into_iter().collect::<$set>()).map_err(rr_err));
+                let mut b = IpBlocksBuilder::new(); for x in &canon { b.push(*x) } emit(6, 0, Ok(b.finalize().into()));
+                let mut b = IpBlocksBuilder::new(); b.extend(canon.iter().copied()); emit(7, 0, Ok(b.finalize().into()));
+                let mut b = IpBlocksBuilder::default(); b.extend(ranges.iter().copied()); emit(8, 0, Ok(b.finalize().into()));
+                for k in 1..n {
+                    let mut b = IpBlocksBuilder::new(); for x in &canon[..k] { b.push(*x) } b.extend(canon[k..].iter().copied()); emit(9, k, Ok(b.finalize().into()));
+                    let mut b = IpBlocksBuilder::new(); b.extend(canon[..k].iter().copied()); for x in &canon[k..] { b.push(*x) } emit(10, k, Ok(b.finalize().into()));
+                }
+                if n >= 2 { let mut b = IpBlocksBuilder::new(); for x in &canon { b.extend([*x]) } emit(11, 0, Ok(b.finalize().into())) }
+                let mut rb = IpResourcesBuilder::new(); rb.blocks(|b| b.extend(canon.iter().copied())); emit(12, 0, rb.finalize().to_blocks().map($set::from).map_err(rr_err));
+                let mut u = IpBlocks::empty(); for x in &canon { u = u.union(&IpBlocks::from_iter([*x])) } emit(13, 0, Ok(u.into()));
+                emit(14, 0, serde_json::from_value::<$set>(serde_json::json!(t0)).map_err(rr_err));
+                let none = String::new();
+                let (s4, s6) = if $v4 { (&t0, &none) } else { (&none, &t0) };
+                emit(15, 0, ResourceSet::from_strs("", s4, s6).map(|s| s.$getter().clone()).map_err(rr_err));
+                let mut obj = serde_json::Map::new();
+                obj.insert("asn".into(), serde_json::json!(""));
+                obj.insert(if $v4 { "ipv6" } else { "ipv4" }.into(), serde_json::json!(""));
+                obj.insert($alias.into(), serde_json::json!(t1));
+                emit(16, 0, serde_json::from_value::<ResourceSet>(serde_json::Value::Object(obj)).map(|s| s.$getter().clone()).map_err(rr_err));
+                let mut obj = serde_json::Map::new();
+                obj.insert($alias.into(), serde_json::json!(t0));
+                emit(17, 0, serde_json::from_value::<prov::RequestResourceLimit>(serde_json::Value::Object(obj)).map_err(rr_err)
+                    .and_then(|l| l.$getter().cloned().ok_or("the limit is None".to_string())));
+                if n >= 1 {
+                    let items: Vec<der::IpItem> = l.iter().map(|&(a, b)| match rr_prefix_len(a, b, $width) { Some(len) => der::IpItem::Prefix(a, len as u8), None => der::IpItem::Range(a, b) }).collect();
+                    emit(18, 0, Mode::Der.decode(der::ip_addr_blocks($afi, $width as u8, Some(&items)).as_slice(), IpResources::take_families_from).map_err(rr_err).and_then(|(v4, v6)| {
+                        let (mine, other) = if $v4 { (v4, v6) } else { (v6, v4) };
+                        if other.is_some() { return Err("the decoder reports the other address family".to_string()) }
+                        mine.ok_or("the family is missing after decoding".to_string())?.to_blocks().map($set::from).map_err(rr_err)
+                    }));
+                }
+            }
+            fn nullary() -> Vec<(&'static str, u8, $set)> {
+                vec![(concat!(stringify!($set), "::all()"), 0xff, $set::all()), (concat!(stringify!($set), "::empty()"), 0, $set::empty()), (concat!(stringify!($set), "::default()"), 0, $set::default()),
+                    ("ResourceSet::all()", 0xff, ResourceSet::all().$getter().clone()), ("ResourceSet::default()", 0, ResourceSet::default().$getter().clone()),
+                    ("IpBlocks::all().into()", 0xff, IpBlocks::all().into()), ("IpBlocks::from_iter([IpBlock::all()]).into()", 0xff, IpBlocks::from_iter([IpBlock::all()]).into()),
+                    (concat!(stringify!($set), "::from_iter([", stringify!($block), "::all()])"), 0xff, $set::from_iter([$block::all()])),
+                    ("IpBlocks::from_resources(IpResources::missing()).into()", 0, IpBlocks::from_resources(IpResources::missing()).expect("missing resources are no blocks").into())]
+            }
+            fn ops(a: &$set, b: &$set, emit: &mut dyn FnMut(usize, $set)) {
+                emit(0, a.union(b).into());
+                emit(1, a.intersection(b).into());
+                let mut x: IpBlocks = (**a).clone(); x.intersection_assign(b); emit(2, x.into());
+                emit(3, a.difference(b).into());
+                if let Ok(t) = b.verify_issued(&IpResources::blocks((**a).clone()), Overclaim::Trim) { emit(4, t.into()) }
+            }
+            fn of_set(s: &ResourceSet) -> $set { s.$getter().clone() }
+            fn val(s: &$set) -> RrVal { $all(s.clone()) }
+        }
+    };
+}
+
+rr_ip_family!(RrV4, Ipv4Blocks, Ipv4Block, true, "ipv4", "v4", 0x0a00_0000, u32::MAX as u128, [0, 1], 32u32, ipv4, RrVal::V4);
+rr_ip_family!(RrV6, Ipv6Blocks, Ipv6Block, false, "ipv6", "v6", 0x2001_0db8u128 << 96, u128::MAX, [0, 2], 128u32, ipv6, RrVal::V6);
+
+//--- driver
+
+/// the expected library value of every mask, through the plainest route
+struct RrExpected<F: RrFam> { set: Vec<Option<F::Set>>, text: Vec<String> }
+
+/// where a value that goes into a message came from
+#[derive(Clone)]
+enum RrSrc { List { case: u64, route: usize, k: usize }, Nullary(&'static str), Op { a: u8, b: u8, op: usize } }
+
+struct RrRep { fam: &'static str, src: RrSrc, mask: u8, val: RrVal, deviant: bool }
+
+fn rr_list_of<F: RrFam>(blocks: &[(usize, usize)], max_len: u32, case: u64) -> (Vec<(u128, u128)>, u8) {
+    let cells = rr_cells(F::MID, F::TOP);
+    let mut s = Vec::new();
+    rpki_verif::engine::enumerate::seq_at(blocks.len() as u64, max_len, case, &mut s);
+    (s.iter().map(|&i| (cells[blocks[i].0], cells[blocks[i].1])).collect(), s.iter().fold(0u8, |m, &i| m | rr_block_mask(blocks[i].0, blocks[i].1)))
+}
+
+fn rr_show_src<F: RrFam>(blocks: &[(usize, usize)], max_len: u32, exp: &RrExpected<F>, src: &RrSrc) -> String {
+    match src {
+        RrSrc::List { case, route, k } => format!("{} blocks [{}] through {}{}", F::NAME, rr_join::<F>(&rr_list_of::<F>(blocks, max_len, *case).0, true), F::LIST_ROUTES[*route],
+            if *k > 0 { format!(" (k = {k})") } else { String::new() }),
+        RrSrc::Nullary(name) => format!("{} {name}", F::NAME),
+        RrSrc::Op { a, b, op } => format!("{} {} of a = [{}], b = [{}]", F::NAME, RR_OPS[*op], exp.text[*a as usize], exp.text[*b as usize]),
+    }
+}
+
+fn rr_expected<F: RrFam>(ctx: &Ctx, sp: &Space) -> RrExpected<F> {
+    let mut e = RrExpected::<F> { set: Vec::new(), text: Vec::new() };
+    for mask in 0..=255u8 {
+        let iv = rr_intervals(F::MID, F::TOP, mask);
+        sp.eval();
+        match guard(|| F::plain(&iv)) {
+            Ok((text, Ok(set))) => {
+                // the model's intervals on the library's number line
+                let want: Vec<(u128, u128)> = if F::NAME == "ipv4" { iv.iter().map(|&(a, b)| (rr_ip_bits(true, a, false), rr_ip_bits(true, b, true))).collect() } else { iv.clone() };
+                let got = F::bounds(&set);
+                if got != want { ctx.fail("C11.resources.expected.intervals", format!("{} {:?}", F::NAME, text), format!("FromStr of sorted, disjoint, non-touching ranges yields the blocks {got:x?}, the text says {want:x?}")) }
+                sp.outcome("plain-route-value");
+                e.set.push(Some(set)); e.text.push(text);
+            }
+            // a refusal is not a statement about messages: nothing is judged for this mask
+            Ok((text, Err(_))) => { sp.outcome("plain-route-refused"); e.set.push(None); e.text.push(text) }
+            Err(p) => { ctx.fail("C11.resources.routes.nopanic", format!("{} FromStr of {:?}", F::NAME, rr_join::<F>(&iv, false)), p); e.set.push(None); e.text.push(rr_join::<F>(&iv, false)) }
+        }
+    }
+    e
+}
+
+#[derive(Default)]
+struct RrLocal<S> { evals: u64, out: BTreeMap<&'static str, u64>, nontrivial: u64, fails: Vec<(RrSrc, &'static str, String)>, reps: BTreeMap<(u8, usize), (RrSrc, S)>, deviants: Vec<(RrSrc, u8, S)> }
+
+const RR_DEVIANTS_PER_CHUNK: usize = 4;
+const RR_DEVIANTS: usize = 24;
+
+fn rr_src_key(s: &RrSrc) -> (u64, usize, usize) { match s { RrSrc::List { case, route, k } => (*case, *route, *k), RrSrc::Nullary(_) => (0, 0, 0), RrSrc::Op { a, b, op } => ((*a as u64) << 8 | *b as u64, *op, 0) } }
+
+/// one value a route produced, against the expected value of its mask
+fn rr_judge<F: RrFam>(exp: &RrExpected<F>, l: &mut RrLocal<F::Set>, src: RrSrc, route_key: usize, mask: u8, got: Result<F::Set, String>) {
+    l.evals += 1;
+    let Some(want) = &exp.set[mask as usize] else { return };
+    let got = match got { Ok(g) => g, Err(_) => { *l.out.entry("route-refused").or_insert(0) += 1; return } };
+    if &got != want {
+        l.fails.push((src.clone(), "C11.resources.routes.equal", format!("the route yields [{}] = {:x?}, the same numbers through FromStr of sorted, disjoint ranges {:?} yield [{}] = {:x?}",
+            got, F::bounds(&got), exp.text[mask as usize], want, F::bounds(want))));
+        if l.deviants.len() < RR_DEVIANTS_PER_CHUNK { l.deviants.push((src, mask, got)) }
+        return;
+    }
+    l.reps.entry((mask, route_key)).or_insert((src, got));
+}
+
+struct RrMerged<S> { fails: Vec<(RrSrc, &'static str, String)>, reps: BTreeMap<(u8, usize), (RrSrc, S)>, deviants: Vec<(RrSrc, u8, S)> }
+
+fn rr_merge<S>(sp: &Space, g: &Mutex<RrMerged<S>>, l: RrLocal<S>) {
+    sp.evals(l.evals); sp.nontrivial(l.nontrivial); sp.merge_outcomes(&l.out);
+    let mut g = g.lock().unwrap();
+    g.fails.extend(l.fails);
+    g.deviants.extend(l.deviants);
+    for (k, v) in l.reps {
+        match g.reps.get(&k) { Some(old) if rr_src_key(&old.0) <= rr_src_key(&v.0) => {} _ => { g.reps.insert(k, v); } }
+    }
+}
+
+/// reports in case order, hands the representatives and the first deviants to the message space
+fn rr_finish<F: RrFam>(ctx: &Ctx, g: Mutex<RrMerged<F::Set>>, show: &dyn Fn(&RrSrc) -> String, out: &mut Vec<RrRep>) {
+    let mut g = g.into_inner().unwrap();
+    g.fails.sort_by_key(|f| rr_src_key(&f.0));
+    for (src, oracle, detail) in &g.fails { ctx.fail(oracle, show(src), detail.clone()) }
+    g.deviants.sort_by_key(|d| rr_src_key(&d.0));
+    for (src, mask, set) in g.deviants.into_iter().take(RR_DEVIANTS) { out.push(RrRep { fam: F::NAME, src, mask, val: F::val(&set), deviant: true }) }
+    for ((mask, _), (src, set)) in g.reps { out.push(RrRep { fam: F::NAME, src, mask, val: F::val(&set), deviant: false }) }
+}
+
+fn rr_lists<F: RrFam>(ctx: &Ctx, sp: &Space, blocks: &[(usize, usize)], max_len: u32, exp: &RrExpected<F>, out: &mut Vec<RrRep>) {
+    let total = rpki_verif::engine::enumerate::seq_count(blocks.len() as u64, max_len);
+    let g = Mutex::new(RrMerged::<F::Set> { fails: Vec::new(), reps: BTreeMap::new(), deviants: Vec::new() });
+    par_chunks(total, 256, |from, to| {
+        let mut l = RrLocal::<F::Set> { evals: 0, out: BTreeMap::new(), nontrivial: 0, fails: Vec::new(), reps: BTreeMap::new(), deviants: Vec::new() };
+        for case in from..to {
+            let (list, mask) = rr_list_of::<F>(blocks, max_len, case);
+            // what the order of the list asks of the route
+            let in_order = list.windows(2).all(|w| w[0].0 <= w[1].0);
+            let chain = list.windows(2).all(|w| w[0].1 < w[1].0 && w[1].0 - w[0].1 > 1);
+            let class = if list.len() < 2 { "empty-or-one-block" } else if chain { "already-a-chain" } else if in_order { "in-order-but-overlapping-or-touching" }
+                else if list.iter().any(|b| b.1 == F::TOP) { "out-of-order-with-a-block-ending-at-the-top-of-the-space" } else { "out-of-order" };
+            if list.len() >= 2 && !chain { l.nontrivial += 1 }
+            let before = l.evals;
+            let r = guard(|| { let mut got = Vec::new(); F::list_routes(&list, &mut |route, k, r| got.push((route, k, r))); got });
+            match r {
+                Ok(got) => for (route, k, r) in got { rr_judge(exp, &mut l, RrSrc::List { case, route, k }, route, mask, r) },
+                Err(p) => { l.evals += 1; l.fails.push((RrSrc::List { case, route: 0, k: 0 }, "C11.resources.routes.nopanic", format!("one of the routes panicked (the witness names the first): {p}"))) }
+            }
+            *l.out.entry(class).or_insert(0) += l.evals - before;
+        }
+        rr_merge(sp, &g, l);
+    });
+    // routes without arguments
+    let mut l = RrLocal::<F::Set> { evals: 0, out: BTreeMap::new(), nontrivial: 0, fails: Vec::new(), reps: BTreeMap::new(), deviants: Vec::new() };
+    match guard(F::nullary) {
+        Ok(v) => for (i, (name, mask, set)) in v.into_iter().enumerate() { rr_judge(&exp, &mut l, RrSrc::Nullary(name), 1000 + i, mask, Ok(set)); *l.out.entry("no-arguments").or_insert(0) += 1 },
+        Err(p) => l.fails.push((RrSrc::Nullary("all() / empty() / default()"), "C11.resources.routes.nopanic", p)),
+    }
+    rr_merge(sp, &g, l);
+    rr_finish::<F>(ctx, g, &|s| rr_show_src::<F>(blocks, max_len, exp, s), out);
+}
+
+fn rr_ops<F: RrFam>(ctx: &Ctx, sp: &Space, exp: &RrExpected<F>, out: &mut Vec<RrRep>) {
+    let g = Mutex::new(RrMerged::<F::Set> { fails: Vec::new(), reps: BTreeMap::new(), deviants: Vec::new() });
+    par_chunks(1 << 16, 512, |from, to| {
+        let mut l = RrLocal::<F::Set> { evals: 0, out: BTreeMap::new(), nontrivial: 0, fails: Vec::new(), reps: BTreeMap::new(), deviants: Vec::new() };
+        for pair in from..to {
+            let (a, b) = ((pair >> 8) as u8, pair as u8);
+            let (Some(sa), Some(sb)) = (&exp.set[a as usize], &exp.set[b as usize]) else { continue };
+            if a & b != 0 && a != b && a & b != a && a & b != b { l.nontrivial += 1 }
+            let r = guard(|| {
+                let mut got = Vec::new();
+                F::ops(sa, sb, &mut |op, r| got.push((op, r)));
+                // the same through the three-family set (the other two families are empty)
+                let wrap = |s: &F::Set| match F::val(s) { RrVal::As(x) => ResourceSet::new(x, Ipv4Blocks::empty(), Ipv6Blocks::empty()), RrVal::V4(x) => ResourceSet::new(AsBlocks::empty(), x, Ipv6Blocks::empty()),
+                    RrVal::V6(x) => ResourceSet::new(AsBlocks::empty(), Ipv4Blocks::empty(), x) };
+                let (ra, rb) = (wrap(sa), wrap(sb));
+                got.push((5, F::of_set(&ra.union(&rb))));
+                got.push((6, F::of_set(&ra.intersection(&rb))));
+                got
+            });
+            match r {
+                Ok(got) => for (op, r) in got {
+                    let m = rr_op_model(op, a, b);
+                    *l.out.entry(if m == 0 { "result-empty" } else if m == 0xff { "result-the-whole-space" } else if m & 0x80 != 0 { "result-reaches-the-top-of-the-space" } else { "result-below-the-top" }).or_insert(0) += 1;
+                    rr_judge(exp, &mut l, RrSrc::Op { a, b, op }, op, m, Ok(r));
+                },
+                Err(p) => { l.evals += 1; l.fails.push((RrSrc::Op { a, b, op: 0 }, "C11.resources.routes.nopanic", format!("one of the operations panicked (the witness names the first): {p}"))) }
+            }
+        }
+        rr_merge(sp, &g, l);
+    });
+    rr_finish::<F>(ctx, g, &|s| rr_show_src::<F>(&[], 0, exp, s), out);
+}
+
+/// the two messages that carry a value of one family: an entitlement (class resource set and the request
+/// limit of an issued certificate) and an issuance request (limit)
+fn rr_messages(fx: &Fx, v: &RrVal) -> [prov::Message; 2] {
+    let (mut asn, mut v4, mut v6) = (fx.asn[5].clone(), fx.v4[7].clone(), fx.v6[7].clone());
+    let mut one = prov::RequestResourceLimit::new();
+    match v {
+        RrVal::As(x) => { asn = x.clone(); one.with_asn(x.clone()) }
+        RrVal::V4(x) => { v4 = x.clone(); one.with_ipv4(x.clone()) }
+        RrVal::V6(x) => { v6 = x.clone(); one.with_ipv6(x.clone()) }
+    }
+    let mut all = prov::RequestResourceLimit::new();
+    all.with_asn(asn.clone()); all.with_ipv4(v4.clone()); all.with_ipv6(v6.clone());
+    let class = prov::ResourceClassEntitlements::new(fx.class(0), ResourceSet::new(asn, v4, v6), fx.times[0],
+        vec![prov::IssuedCert::new(fx.rsyncs[3].clone(), one, fx.certs[1].1.clone())], prov::SigningCert::new(fx.rsyncs[1].clone(), fx.certs[0].1.clone()));
+    [prov::Message::list_response(fx.handle(0), fx.handle(1), prov::ResourceClassListResponse::new(vec![class])),
+     prov::Message::issue(fx.handle(0), fx.handle(1), prov::IssuanceRequest::new(fx.class(0), all, fx.csrs[0].1.clone()))]
+}
+
+fn space_resource_routes(ctx: &Ctx, fx: &Fx) {
+    let max_len: u32 = ctx.tier.pick(3, 4);
+    let blocks = rr_blocks();
+    let mut reps: Vec<RrRep> = Vec::new();
+
+    let sp = ctx.space("resources.routes.lists",
+        "per family (AS, IPv4, IPv6): every list of up to N blocks out of the 21 blocks [p, q] over the points 0, 1, M, M+1, TOP-1, TOP of the number line, in every order, through every public route from a block list to a set (FromStr in two spellings, FromIterator in two block forms, the builders with push / extend in every split, *ResourcesBuilder, folded unions, serde, RFC 3779 DER), plus the routes without arguments (all, empty, default); each result against the FromStr value of the sorted, disjoint ranges of the same numbers (whose blocks are checked against the model); non-trivial = lists of two or more blocks that are not already a chain (out of order, overlapping or touching)");
+    let (ea, e4, e6) = (rr_expected::<RrAs>(ctx, &sp), rr_expected::<RrV4>(ctx, &sp), rr_expected::<RrV6>(ctx, &sp));
+    rr_lists::<RrAs>(ctx, &sp, &blocks, max_len, &ea, &mut reps);
+    rr_lists::<RrV4>(ctx, &sp, &blocks, max_len, &e4, &mut reps);
+    rr_lists::<RrV6>(ctx, &sp, &blocks, max_len, &e6, &mut reps);
+    sp.set("points", serde_json::json!({"as": rr_cells(RrAs::MID, RrAs::TOP).map(|x| RrAs::text(x, x, true)), "ipv4": rr_cells(RrV4::MID, RrV4::TOP).map(|x| RrV4::text(x, x, true)),
+        "ipv6": rr_cells(RrV6::MID, RrV6::TOP).map(|x| RrV6::text(x, x, true))}));
+    sp.set("routes", serde_json::json!({"as": RrAs::LIST_ROUTES, "ipv4": RrV4::LIST_ROUTES, "ipv6": RrV6::LIST_ROUTES}));
+    sp.sample_str(|| format!("{} -> expected {:?}", rr_show_src::<RrV4>(&blocks, max_len, &e4, &RrSrc::List { case: rpki_verif::engine::enumerate::seq_count(21, 1) + 21 * 8 + 5, route: 7, k: 1 }),
+        e4.text[(rr_block_mask(1, 3) | rr_block_mask(0, 5)) as usize]));
+    sp.done(true, &format!("all lists of <= {max_len} blocks out of 21, three families, every route"));
+
+    let sp = ctx.space("resources.routes.operations",
+        "per family: every ordered pair (a, b) of the 256 sets over the 8 atoms of the number line (6 points and the 2 stretches between them, both ends of the space included) through union, intersection, intersection_assign, difference, verify_issued(Trim) and ResourceSet::union / intersection; each result against the FromStr value of the model's a|b, a&b, a&!b; non-trivial = pairs that overlap without one containing the other");
+    rr_ops::<RrAs>(ctx, &sp, &ea, &mut reps);
+    rr_ops::<RrV4>(ctx, &sp, &e4, &mut reps);
+    rr_ops::<RrV6>(ctx, &sp, &e6, &mut reps);
+    sp.set("operations", serde_json::json!(RR_OPS));
+    sp.sample_str(|| rr_show_src::<RrAs>(&[], 0, &ea, &RrSrc::Op { a: 0b1000_0110, b: 0b1111_0000, op: 3 }));
+    sp.done(true, "all 65536 ordered pairs of sets, three families, 7 operations");
+
+    // --- the values the routes produced, inside messages
+    let sp = ctx.space("prov.resource_routes",
+        "Message::list_response (class resource set and the request limit of an issued certificate) and Message::issue (request limit) carrying, per family, the value each construction route actually produced: one representative per (set, route) of resources.routes.lists / .operations plus the first values that differed from the expected one; written, parsed, compared with the message itself and with the message built from the FromStr value of the sorted, disjoint ranges; non-trivial = distinct written documents");
+    let col = Collector::new(sp.clone());
+    let show = |r: &RrRep| match r.fam { "as" => rr_show_src::<RrAs>(&blocks, max_len, &ea, &r.src), "ipv4" => rr_show_src::<RrV4>(&blocks, max_len, &e4, &r.src), _ => rr_show_src::<RrV6>(&blocks, max_len, &e6, &r.src) };
+    let want = |r: &RrRep| match r.fam { "as" => ea.set[r.mask as usize].clone().map(RrVal::As), "ipv4" => e4.set[r.mask as usize].clone().map(RrVal::V4), _ => e6.set[r.mask as usize].clone().map(RrVal::V6) };
+    let deviants = reps.iter().filter(|r| r.deviant).count();
+    run_cases(&reps, &col, |r, l| {
+        let Some(expected) = want(r) else { return };
+        let (got, exp) = (rr_messages(fx, &r.val), rr_messages(fx, &expected));
+        for (i, kind) in ["list_response", "issue"].into_iter().enumerate() {
+            let wit = || format!("prov.{kind}(resource set / request limit := {})", show(r));
+            roundtrip(ctx, "prov", l, &got[i], &wit, &prov_write, &prov_parse);
+            l.bump(if r.deviant { "value-differs-from-the-expected-one" } else if matches!(r.src, RrSrc::Op { .. }) { "value-of-an-operation" } else { "value-of-a-list-route" });
+            // parse failures are reported by the round trip above
+            if let Ok(Ok(back)) = guard(|| prov_parse(&prov_write(&got[i]))) {
+                if back != exp[i] {
+                    let set = |m: &prov::Message| match m.payload() {
+                        prov::Payload::ListResponse(x) => x.classes().first().map(|c| c.resource_set().to_string()).unwrap_or_default(),
+                        prov::Payload::Issue(x) => show_req_limit(x.limit()).unwrap_or_default(), _ => String::new() };
+                    l.fail(ctx, "C11.prov.resource_routes.expected".into(), &wit, format!("parse(write(m)) differs from the message built from the same numbers as sorted, disjoint text: parsed {}; expected {}", set(&back), set(&exp[i])));
+                }
+            }
+        }
+    });
+    sp.set("values", serde_json::json!({"representatives": reps.len() - deviants, "differing_from_expected": deviants}));
+    sp.sample_str(|| reps.iter().find(|r| matches!(r.src, RrSrc::List { route: 9, .. }) && r.mask == 0xff).map(|r| format!("prov.list_response(resource set / request limit := {})", show(r))).unwrap_or_default());
+    col.finish(true, "one representative per (set, route) of the two route spaces, first 24 differing values per family and space");
 }
 
 //============ RFC 8183 identity exchange ====================================
@@ -3647,7 +4155,7 @@ fn main() {
     }
     // a Trace-level logger that formats every record: the library's log statements run during all parses
     if log::set_logger(&TRACE_LOG).is_ok() { log::set_max_level(log::LevelFilter::Trace) }
-    ctx.assume("protocol-valid field values: handles [-_A-Za-z0-9/]{1,255} (RFC 8183 pattern; the empty handle the pattern would admit is refused by the library's own FromStr and left out); tags and class names xsd:token over printable ASCII and DEL, class names non-empty, at most 1024 characters; URIs as admitted by uri::Rsync / uri::Https with RFC 3986 characters and every letter case of scheme, authority and path, service URIs built through the public ServiceUri::Https / ServiceUri::Http variants (http scheme in every letter case) as well as through FromStr / TryFrom; resource sets in canonical form built by FromStr / all() / empty(); not-after times with whole seconds in years 1..9999 (fractional seconds are a separately named oracle); object contents of any length including 0 (RFC 8181 base64 = xsd:base64Binary without minLength); ID certificates non-empty");
+    ctx.assume("protocol-valid field values: handles [-_A-Za-z0-9/]{1,255} (RFC 8183 pattern; the empty handle the pattern would admit is refused by the library's own FromStr and left out); tags and class names xsd:token over printable ASCII and DEL, class names non-empty, at most 1024 characters; URIs as admitted by uri::Rsync / uri::Https with RFC 3986 characters and every letter case of scheme, authority and path, service URIs built through the public ServiceUri::Https / ServiceUri::Http variants (http scheme in every letter case) as well as through FromStr / TryFrom; resource sets in canonical form built by FromStr / all() / empty() (resources.routes.* and prov.resource_routes: built through every public construction route, from block lists in any order, overlapping or touching, up to both ends of the number space); not-after times with whole seconds in years 1..9999 (fractional seconds are a separately named oracle); object contents of any length including 0 (RFC 8181 base64 = xsd:base64Binary without minLength); ID certificates non-empty");
     ctx.assume("non-ASCII field values are outside the property (rejected by ascii_into by design)");
     ctx.assume("quick-xml, base64, chrono and bcder are trusted as libraries; the well-formedness verdict comes from the checker in this file, quick-xml's raw reader is only a second opinion");
     let t0 = std::time::Instant::now();
@@ -3658,6 +4166,7 @@ fn main() {
     lap("fixtures");
     space_publication(&ctx, &fx); lap("publication");
     space_provisioning(&ctx, &fx); lap("provisioning");
+    space_resource_routes(&ctx, &fx); lap("resource routes");
     space_idexchange(&ctx, &fx); lap("idexchange");
     space_scale(&ctx, &fx); lap("scale");
     space_seeds(&ctx, &fx); lap("seeds");
